@@ -1,4 +1,5 @@
 pub mod refarith;
 pub mod refcal;
 pub mod reftz;
+pub mod refzoned;
 pub mod wide;
